@@ -889,7 +889,13 @@ where
     let how = rng.below(4) as u8;
     Drv::<C>(std::marker::PhantomData).register(&mut world, how);
     // entity layout
-    let shape = if cfg.extra_u64("far", 0) == 1 && rng.chance(1, 4) { 3 } else { rng.weighted(&[45, 30, 25]) };
+    let shape = if cfg.extra_u64("far", 0) == 1 && rng.chance(1, 4) {
+        3
+    } else if cfg.extra_u64("small", 0) == 1 {
+        0
+    } else {
+        rng.weighted(&[45, 30, 25])
+    };
     let (n, keep): (usize, Vec<u32>) = match shape {
         0 => {
             let n = rng.range(1, 40);
@@ -1008,7 +1014,8 @@ where
             if let Some(m) = ledger::take_faults().into_iter().next() {
                 return Err(("C08", m));
             }
-            if !big || step % 8 == 0 {
+            let lite = cfg.extra_u64("lite", 0) as usize;
+            if (lite > 0 && step % lite == 0) || (lite == 0 && (!big || step % 8 == 0)) {
                 st.full_check()?;
             }
             Ok(())
